@@ -81,6 +81,12 @@ def check(ctx):
              dict(name='funnel_error', module='parser', kind='complete', timeout=600, covers_optional=True, desc='error(): wraps the given error with the current line in both modes, records no warning'),
              dict(name='funnel_check_version', module='parser', kind='complete', timeout=900,
                   desc='check_version: for all u32 masks, all declared versions, both modes: narrows version_compatibility by the mask; raises through the funnel exactly when the file version is not in the mask')]
+    # value checks run on the *trimmed* text: the trim contract (only ASCII whitespace is removed, and all of it at both ends)
+    # is what keeps a defective value from slipping through; same unit as in C02
+    from contracts import trim
+    ctx.verus_unit(trim.UNIT, finder=dict(module='parser', check='trim', alphabet=b' \nA<\x0b', maxlen=5))
+    specs += [dict(name='trim_len%d' % n, module='parser', kind='bounded', bound='input length == %d, all byte values' % n, timeout=120, covers_optional=(n < 2),
+                   desc='unmodified trim_byte_string against the executable contract: result is the input minus leading/trailing ASCII whitespace, nothing else removed') for n in range(0, 5)]
     ctx.kani('autosar-data', specs)
     try:
         ncalls = frame_scan(ctx, ctx.scratch.dir)
